@@ -5,6 +5,7 @@ CONSTANTS
   RecheckUnderLock = TRUE
   NotifyAfterPush = TRUE
   DrainRechecks = FALSE
+  DrainCountsAll = TRUE
 SPECIFICATION Spec
 INVARIANT TypeOK
 INVARIANT CountsAgree
